@@ -771,3 +771,69 @@ func c06DeferUnlockInLoop(c *Ctx) {
 	deferUnlockInLoopRule(c, "C06.lock", []string{"offset_manager.go", "consumer_group.go"})
 }
 func c12DeferUnlockInLoop(c *Ctx) { deferUnlockInLoopRule(c, "C12.pairing", nil) }
+
+// recursive acquisition: a method that takes a lock of its receiver is called while that very lock is held.
+func recursiveLockRule(c *Ctx, rule string, files []string) {
+	p := c.P
+	takes := func(cl *ssa.Call) (lockKey, string, bool) {
+		cal := cl.Call.StaticCallee()
+		if cal == nil || cal.Blocks == nil || cal.Signature.Recv() == nil || len(cal.Params) == 0 || len(cl.Call.Args) == 0 {
+			return lockKey{}, "", false
+		}
+		recv := canon(cal.Params[0])
+		for _, b := range cal.Blocks {
+			for _, i := range b.Instrs {
+				if _, isDefer := i.(*ssa.Defer); isDefer {
+					continue
+				}
+				if k, op, ok := lockOp(i); ok && (op == "Lock" || op == "RLock") && k.base == recv {
+					return lockKey{canon(cl.Call.Args[0]), k.lock}, op, true
+				}
+			}
+		}
+		return lockKey{}, "", false
+	}
+	n := 0
+	for _, fn := range p.Fns {
+		if fn.Blocks == nil || rootOf(fn).Pkg == nil || (rootOf(fn).Pkg != p.Sarama && rootOf(fn).Pkg != p.Mocks) {
+			continue
+		}
+		if files != nil {
+			in := false
+			for _, f := range files {
+				if p.inFile(fn, f) {
+					in = true
+				}
+			}
+			if !in {
+				continue
+			}
+		}
+		var at map[ssa.Instruction]acqState
+		for _, b := range fn.Blocks {
+			for _, in := range b.Instrs {
+				cl, ok := in.(*ssa.Call)
+				if !ok {
+					continue
+				}
+				k, op, ok := takes(cl)
+				if !ok {
+					continue
+				}
+				if at == nil {
+					at = acquisitionsAt(fn)
+				}
+				n++
+				held := at[cl][k]
+				c.Check(len(held) == 0, rule, fn, "no-recursive-acquisition:"+k.lock, cl, "the callee's lock is not already held at the call", p.Name(fn)+" calls "+p.CalleeName(&cl.Call)+", which takes "+k.lock+"."+op+"(), while it already holds that lock itself: sync.(RW)Mutex is not re-entrant — a second Lock blocks at once, and a second RLock blocks as soon as a writer is queued between the two (the writer waits for the outer reader, the inner reader waits behind the writer): the lock is wedged for good and every Close that needs it hangs", nil)
+			}
+		}
+	}
+	_ = n
+}
+
+func c12RecursiveLock(c *Ctx) { recursiveLockRule(c, "C12.pairing", nil) }
+func c06RecursiveLock(c *Ctx) {
+	recursiveLockRule(c, "C06.lock", []string{"offset_manager.go", "consumer_group.go"})
+}
+func c15RecursiveLock(c *Ctx) { recursiveLockRule(c, "C15.lock", []string{"client.go"}) }
